@@ -112,16 +112,21 @@ def as_array(r):
 
 
 def ulp_distance(a, b):
-    """Worst integer ulp distance between two arrays (b is cast to a's dtype if the dtypes differ; the dtype
-    difference itself is a separate clause).  NaN == NaN, equal infinities -> 0.  Capped at LIM."""
+    """Worst integer ulp distance between the observed array a and the reference b.  If the dtypes differ (a
+    separate clause) the NUMBERS are compared in the reference's dtype, so a result that was cast into a
+    narrower space (1.414 -> 1) is seen.  NaN == NaN, equal infinities -> 0.  Capped at LIM."""
     a = np.asarray(a)
     b = np.asarray(b)
     if a.shape != b.shape:
         return LIM
     if a.dtype != b.dtype:
+        if a.dtype.kind == 'c' and b.dtype.kind != 'c':
+            if np.any(a.imag != 0):
+                return LIM
+            a = a.real
         with np.errstate(all='ignore'):
             try:
-                b = b.astype(a.dtype)
+                a = a.astype(b.dtype)
             except (TypeError, ValueError):
                 return LIM
     if a.size == 0:
